@@ -117,9 +117,12 @@ func RunCases(t *testing.T, rep *Report, testName string, n, workers int, stall 
 				}
 				if how == "hang" {
 					// a stall under load is not a hang: run that case again, alone, with a generous deadline, before believing it
-					confirm := stall * 20
+					confirm := stall * 2
 					if confirm < 5*time.Minute {
 						confirm = 5 * time.Minute
+					}
+					if confirm > 15*time.Minute {
+						confirm = 15 * time.Minute
 					}
 					if part, ok := runSingleCase(testName, bad, confirm, dir, w); ok {
 						rep.Merge(part)
